@@ -291,3 +291,18 @@ reg('C16',
     level_text='The structured value set is enumerated completely; every emitted text is compared with ground truth computed outside the C library.',
     level_note='known finding for the built-in formatter at large decimal exponents, see known_findings.txt',
     design_ref='DESIGN.md section 3 / C16')
+
+reg('C04',
+    title='numeric parameters decode to the value their literal denotes',
+    src='c04_numeric.c', py='py_c04.py',
+    configs={'quick': ['def'], 'thorough': ['def']},
+    deadline={'quick': 110, 'thorough': 1500},
+    level=MC,
+    technique='complete enumeration of a grammar-derived finite literal set executed through SCPI_Input on the real readers (ASan), compared bit for bit with results computed in exact rational arithmetic (Python Fractions)',
+    rule={'quick': 'decimal literals: sign {none,+,-} x integer and fraction parts (digit strings of length 0..2 over {0,1,5,9}, with and without point) x exponent {none} u ({none, blank, 2 blanks, tab} x {E,e} x {none, blank} x {none,+,-} x 12 exponent digit strings up to 323), ~0.8 M literals; long mantissas of every length 1..25 x 6 fills x point positions x 8 exponents; rounding traps (2^53+1, 2^24+1, half-subnormals, overflow boundaries); integer literals around every type limit; nondecimal: every #H/#Q/#B literal of <= 4 digits (#B <= 10) and every length up to 64 bits x 5 fills; each through SCPI_ParamDouble/Float/Number and (integer literals, nondecimal) the four integer readers. Plus every unit-table row x every letter-case combination x {0,1,2} blanks x 4 literals, golden multipliers of IEEE 488.2 table 7-2, and every special mnemonic (short/long) in every letter case; non-trivial = literal whose every decoded value matched the exact expectation',
+          'thorough': 'integer/fraction digit strings of length 0..3 (about 37 M decimal literals), full hex digit set'},
+    assumptions=['expected binary64/binary32 values are the correctly rounded (ties-to-even, gradual underflow, overflow to infinity) values of the exact decimal literal with blanks removed',
+                 'nondecimal literals wider than the reader type, and non-integer literals handed to integer readers, are outside the statement'],
+    level_text='The grammar-derived literal set is enumerated completely and every decoded bit pattern is compared with ground truth computed outside the C library.',
+    level_note='rounding routine self-tested against Python float() (python3 mc/py_c04.py)',
+    design_ref='DESIGN.md section 3 / C04')
